@@ -41,6 +41,7 @@ type stateSpec struct {
 type korcSpec struct {
 	GetFail    []string `json:"get_fail,omitempty"`
 	UpdateFail []string `json:"update_fail,omitempty"`
+	Conflict   []string `json:"conflict,omitempty"` // the node's first update is rejected with 409 after another writer changed it
 	DeleteFail []string `json:"delete_fail,omitempty"`
 }
 
@@ -137,7 +138,30 @@ func (l *snapPodLister) Pods(ns string) v1lister.PodNamespaceLister { return nil
 type snapNodeLister struct{ nodes []*v1.Node }
 
 func (l *snapNodeLister) List(sel labels.Selector) ([]*v1.Node, error) {
-	return append([]*v1.Node(nil), l.nodes...), nil
+	out := make([]*v1.Node, 0, len(l.nodes))
+	for _, n := range l.nodes {
+		out = append(out, stampRV(n))
+	}
+	return out, nil
+}
+
+// contentRV: the resource version of a node object is a function of its content, so that a listed copy and the API server's
+// copy carry the same version exactly when they are the same object state (histories edit both stores directly).
+func contentRV(n *v1.Node) string {
+	c := n.DeepCopy()
+	c.ResourceVersion = ""
+	c.ManagedFields = nil
+	h := hashJSON(c)
+	if h < 0 {
+		h = -h
+	}
+	return strconv.FormatInt(h%1000000000000, 10)
+}
+
+func stampRV(n *v1.Node) *v1.Node {
+	c := n.DeepCopy()
+	c.ResourceVersion = contentRV(n)
+	return c
 }
 func (l *snapNodeLister) Get(name string) (*v1.Node, error) { return nil, nil }
 
@@ -148,6 +172,7 @@ type apiSim struct {
 	store map[string]*v1.Node
 	orc   map[string]*korcSpec // by node name -> the oracle of the group that owns it is not known here, so a union is used
 	get, update, del map[string]bool
+	conflict map[string]bool // a concurrent writer changes the node just before escalator's first update of it: 409
 	j     *Journal
 }
 
@@ -177,20 +202,43 @@ func (a *apiSim) react(action k8stesting.Action) (bool, runtime.Object, error) {
 			return true, nil, errInjected
 		}
 		a.j.add(JEntry{K8s: &K8sCall{Verb: "get", Name: name, OK: true}})
-		return true, n.DeepCopy(), nil
+		return true, stampRV(n), nil
 	case "update":
 		act := action.(k8stesting.UpdateAction)
 		obj := act.GetObject().(*v1.Node)
 		name := obj.Name
 		old, ok := a.store[name]
-		fail := a.update[name] || !ok
+		if ok && a.conflict[name] {
+			// the other writer: drops the node's first taint that is not escalator's (the lifecycle controller clearing
+			// not-ready), or touches a label when there is none
+			delete(a.conflict, name)
+			dropped := false
+			for i, t := range old.Spec.Taints {
+				if t.Key != "atlassian.com/escalator" {
+					old.Spec.Taints = append(append([]v1.Taint{}, old.Spec.Taints[:i]...), old.Spec.Taints[i+1:]...)
+					dropped = true
+					break
+				}
+			}
+			if !dropped {
+				if old.Labels == nil {
+					old.Labels = map[string]string{}
+				}
+				old.Labels["verif/touched"] = "1"
+			}
+		}
+		stale := ok && obj.ResourceVersion != contentRV(old)
+		fail := a.update[name] || !ok || stale
 		added := !ok || len(obj.Spec.Taints) > len(old.Spec.Taints)
 		a.j.add(JEntry{K8s: &K8sCall{Verb: "update", Name: name, OK: !fail, Payload: obj.DeepCopy(), Added: added}})
+		if stale {
+			return true, nil, apierrors.NewConflict(nodeGR, name, fmt.Errorf("the object has been modified; please apply your changes to the latest version and try again"))
+		}
 		if fail {
 			return true, nil, errInjected
 		}
 		a.store[name] = obj.DeepCopy()
-		return true, obj.DeepCopy(), nil
+		return true, stampRV(obj), nil
 	case "delete":
 		act := action.(k8stesting.DeleteAction)
 		name := act.GetName()
@@ -327,12 +375,16 @@ func (w *world) build() error {
 // setOracles installs the per-group API failure oracles (union over groups: node names are unique per case).
 func (w *world) setOracles() {
 	w.api.get, w.api.update, w.api.del = map[string]bool{}, map[string]bool{}, map[string]bool{}
+	w.api.conflict = map[string]bool{}
 	for _, g := range w.spec.Groups {
 		for _, n := range g.K8s.GetFail {
 			w.api.get[n] = true
 		}
 		for _, n := range g.K8s.UpdateFail {
 			w.api.update[n] = true
+		}
+		for _, n := range g.K8s.Conflict {
+			w.api.conflict[n] = true
 		}
 		for _, n := range g.K8s.DeleteFail {
 			w.api.del[n] = true
@@ -609,7 +661,7 @@ func emitScanCase(s *scanSpec, obs *scanObs) (string, string, bool, string) {
 			lastOut = &v
 		}
 		st := in.cgstate(g.State.Locked, lockT, g.State.Requested, g.State.ScaleDelta, lastOut, g.State.CacheCPU, g.State.CacheMem, g.State.TaintTracker, g.State.ForceTracker)
-		k := fmt.Sprintf("(Build_korc %s %s %s)", in.cids(g.K8s.GetFail), in.cids(g.K8s.UpdateFail), in.cids(g.K8s.DeleteFail))
+		k := fmt.Sprintf("(Build_korc %s %s %s)", in.cids(g.K8s.GetFail), in.cids(append(append([]string{}, g.K8s.UpdateFail...), g.K8s.Conflict...)), in.cids(g.K8s.DeleteFail))
 		groups = append(groups, fmt.Sprintf("(Build_group_in %s %s %s %s %s)", in.copts(g.Opts), st, in.caorc(g.Aws), k, cbool(g.Aws.DescInstFail)))
 	}
 	api := s.API
